@@ -1,6 +1,7 @@
 import Solvor.Net.Lemmas
 import Solvor.Net.RatLemmas
 import Solvor.Net.Kcore
+import Solvor.Net.Lowlink
 /-!
 Net: the property theorems of C15 (helper lemmas are in `Lemmas.lean` / `RatLemmas.lean`).
 -/
@@ -65,16 +66,46 @@ example : IsTransversal [0, 1, 2, 3] (fun u w => (u, w) == (1, 0) || (u, w) == (
 
 /-! ## Low-link DFS (`articulation_points`, `bridges`) -/
 
--- FULL STATEMENT (not proved): C15 [S] low-link correctness –
--- theorem lowlink_correct (G : Graph) (hn : G.nodes.Nodup) :
---     (∀ v, v ∈ (lowlink G).1 ↔ v ∈ cutVerticesDef G) ∧
---     (∀ e, e ∈ (lowlink G).2 ↔ e ∈ bridgesDef G) ∧ (lowlink G).2.Nodup
--- (the mirror of the repaired low-link DFS returns exactly the vertices / edges whose removal
--- increases `compCount`).  Until it is proved the equality is established per explored input: the
--- driver evaluates `lowlink`, `cutVerticesDef` and `bridgesDef` and the check compares all three
--- with the implementation.
+/-- C15 [S] `lowlink_correct`: for distinct nodes and any neighbour lists, the mirror of the (repaired)
+low-link DFS returns exactly the definitional cut vertices and bridges – the vertices / edges
+`(a, b)`, `a < b`, whose removal increases the number of connected components (`compCount`,
+`components_count_correct`) of the symmetric closure of the neighbour relation – and lists no bridge
+twice. -/
+theorem lowlink_correct (G : Graph) (hn : G.nodes.Nodup) :
+    (∀ v, v ∈ (lowlink G).1 ↔ v ∈ cutVerticesDef G) ∧
+    (∀ e, e ∈ (lowlink G).2 ↔ e ∈ bridgesDef G) ∧ (lowlink G).2.Nodup := by
+  obtain ⟨h1, h2, h3⟩ := lowlink_spec G hn
+  refine ⟨?_, ?_, h3⟩
+  · intro v
+    rw [h1]
+    unfold cutVerticesDef
+    rw [List.mem_filter]
+    constructor
+    · intro hc
+      have hv : v ∈ G.nodes := by
+        obtain ⟨n1, _, hn1, _⟩ := hc
+        exact (G.A_mem hn1).1
+      exact ⟨hv, (isCutVertex_iff G v hv).2 hc⟩
+    · rintro ⟨hv, hc⟩
+      exact (isCutVertex_iff G v hv).1 hc
+  · intro e
+    rw [h2]
+    unfold bridgesDef
+    simp only [List.mem_flatMap, List.mem_map, List.mem_filter, Bool.and_eq_true, decide_eq_true_eq]
+    constructor
+    · rintro ⟨a, b, rfl, hb⟩
+      have hm := G.A_mem hb.1
+      have hne := G.A_ne hb.1
+      by_cases hab : a < b
+      · refine ⟨a, hm.1, b, ⟨hm.2, hab, (isBridge_iff G a b).2 hb⟩, ?_⟩
+        simp [canon, hab]
+      · have hba : b < a := by omega
+        refine ⟨b, hm.2, a, ⟨hm.1, hba, (isBridge_iff G b a).2 (BridgeSpec_symm G hb)⟩, ?_⟩
+        simp [canon, hab]
+    · rintro ⟨a, _, b, ⟨_, hab, hbr⟩, rfl⟩
+      exact ⟨a, b, by simp [canon, hab], (isBridge_iff G a b).1 hbr⟩
 
-/-- Proved part: every vertex the mirror reports is a node, every reported bridge `(a, b)` has
+/-- Elementary part (no `Nodup` needed): every vertex the mirror reports is a node, every reported bridge `(a, b)` has
 `a < b` and is an edge of the symmetric closure of the neighbour relation. -/
 theorem lowlink_partial (G : Graph) :
     (∀ x ∈ (lowlink G).1, x ∈ G.nodes) ∧
